@@ -26,7 +26,7 @@ WORKERS = int(os.environ.get("VERIF_WORKERS", "0") or 0) or vlib.NCPU
 NPROC = max(2, min(8, (int(os.environ.get("VERIF_WORKERS", "0") or 0) or vlib.NCPU // 2)))
 
 INV_MAIN = ("CodeAgreesResolve CodeAgreesStages CodeAgreesMaps NearerWins UserOverVarsOverDefaults EmptyIsDefinition "
-            "DefinedIffResolved StageEnds StageBlind LocalRanksAsVars IncludeIsALevel")
+            "DefinedIffResolved StageEnds StageBlind LocalRanksAsVars IncludeIsALevel StoreWithinOwnKind")
 
 
 def _b(x):
@@ -154,7 +154,7 @@ def pattern(c):
 RENDERED = {"A": ["defaults entry (stage 1)", "vars entry (stage 2)", "user var (stage 3)", "name (stage 4)", "constraint (stage 5)"],
             "S": ["defaults entry (stage 1)", "vars entry (stage 2)", "constraint (stage 5)"],
             "B": ["defaults entry (stage 1)", "vars entry (stage 2)", "name (stage 4)", "constraint (stage 5)"]}
-ROLE = {"A": "aggregator", "T": "task role", "C": "call role", "I": "include role", "S": "included sub-workflow root",
+ROLE = {"E": "environment", "A": "aggregator", "T": "task role", "C": "call role", "I": "include role", "S": "included sub-workflow root",
         "B": "aggregator inside the sub-workflow"}
 
 
@@ -164,6 +164,8 @@ def field_name(inv, variant, j):
         return str(j)
     if inv == "ClassBelowWorkflow":
         return ["command value", "argument", "env", "property"][j - 1]
+    if variant == "E":
+        return ["GlobalDefaults", "GlobalVars", "UserVars", "BaseConfigStack"][j - 3]
     if variant == "I":
         return "stage %d stack" % (j - 3) if j <= 8 else "name (stage 4)"
     if j == 3:
@@ -184,8 +186,9 @@ def run(ctx):
     ctx.assumptions += [
         "a path of at most 4 nested roles under the environment; one probed key (plus one referenced key); what a role sees does "
         "not depend on its siblings or descendants",
-        "role-level user vars are set with Role.SetRuntimeVar (the YAML cannot carry them); environment-level cells are the three "
-        "maps behind workflow.ParentAdapter, as environment.newEnvironment builds them from Consul and the request",
+        "role-level user vars are set with Role.SetRuntimeVar (the YAML cannot carry them); the environment level is built by the real "
+        "environment.newEnvironment (VerifVSNewEnvironment): its defaults and vars cells are served by the configuration service "
+        "from a YAML-file store (o2/runtime/aliecs/defaults|vars, rewritten per case), its user vars are the request's",
         "a template reference to a key is probed with {{ $env?.k }} (renders <nil> when the key is not in the stack) so that absence "
         "is observable without failing the load; the plain form {{ o }} is used in the two-key cases (absence = load error)",
         "the iterator variable is read as: on top of the stack during the generated role's own template stages, a vars definition "
@@ -234,9 +237,9 @@ def run(ctx):
         cases.append(dict(replay_case))
     else:
         def single(d, vec):
-            # class cells drawn at random; the task / call role variants of every level are built for a quarter of this family
+            # class cells drawn at random; the task / call role variants of every level are built for a fifth of this family
             return {"fam": "one", "d": d, "c": list(vec), "it": 0, "cc": [rng.randrange(3), rng.randrange(3)],
-                    "notc": d >= 2 and rng.random() < 3 / 4}
+                    "notc": d >= 2 and rng.random() < 4 / 5}
         for d in (1, 2):
             for vec in itertools.product((0, 1, 2), repeat=3 * (d + 1)):
                 cases.append(single(d, vec))
@@ -309,7 +312,7 @@ def run(ctx):
         scn = ctx.path("scn_%d.ndjson" % i)
         trc = ctx.path("trace_%d.ndjson" % i)
         ctx.write_ndjson(scn, chunks[i])
-        out = ctx.run([binp, "-scenarios", scn, "-trace", trc], timeout=1500)
+        out = ctx.run([binp, "-scenarios", scn, "-trace", trc], timeout=1500, env={"GOGC": "400"})  # short-lived garbage only
         return trc, out.strip()
 
     try:
